@@ -39,7 +39,7 @@ struct Tap
     uint64_t total;
     Tap() : enabled(false), cap(1u << 20), total(0) {}
 };
-static Tap g_tap;
+static thread_local Tap g_tap;   // one tap log per simulated caller thread
 
 extern "C" void verif_tap_cb(const void *synth, unsigned chip, unsigned port, unsigned reg, unsigned val, int isPan)
 {
